@@ -438,7 +438,7 @@ loop:
 	harnessTrouble := 0
 	sort.Slice(a.viols, func(i, j int) bool { return a.viols[i].idx < a.viols[j].idx })
 	for _, av := range a.viols {
-		if strings.HasPrefix(av.v.Class, "harness-") {
+		if strings.HasPrefix(av.v.Class, "harness-") || strings.Contains(av.v.Class, "/harness-") {
 			harnessTrouble++
 			fmt.Printf("HARNESS-TROUBLE case=%d %s\n", av.idx, firstLines(av.v.Detail, 30))
 			continue
@@ -689,15 +689,31 @@ func runWorker(self string, w workerArgs, sh, nsh, from int, budget float64, a *
 	return cur, false, true, why, tail
 }
 
+// tailFile returns the informative part of a worker's stderr: from the first crash marker
+// (fatal error / panic / SIGQUIT dump) if there is one, else the tail.
 func tailFile(path string, n int) string {
 	b, err := os.ReadFile(path)
 	if err != nil {
 		return ""
 	}
-	if len(b) > n {
-		b = b[len(b)-n:]
+	s := string(b)
+	first := -1
+	for _, m := range []string{"fatal error:", "panic:", "SIGQUIT:", "runtime: goroutine stack exceeds", "WARNING: DATA RACE"} {
+		if i := strings.Index(s, m); i >= 0 && (first < 0 || i < first) {
+			first = i
+		}
 	}
-	return string(b)
+	if first >= 0 {
+		s = s[first:]
+		if len(s) > n {
+			s = s[:n]
+		}
+		return s
+	}
+	if len(s) > n {
+		s = s[len(s)-n:]
+	}
+	return s
 }
 
 // soloConfirm re-runs one suspect case alone under hard rlimits.
